@@ -130,6 +130,17 @@ def cases():  # noqa: PLR0915
         if want[0] in ("String", "CIString", "BuiltIn"):
             continue  # a node that produces no pair: the tag has nothing to label (pest and python-pest alike)
         out.append((f"#t = {desc}", [("TAG", "#t"), ("ASSIGN_OP", "=")] + toks, want + (("#", "t"),)))
+    # (b') a tag on a term that produces no pair labels nothing - and in particular not the next term that could carry
+    # one, in the same sequence, in the next alternative or inside a following group
+    T = [("TAG", "#t"), ("ASSIGN_OP", "=")]
+    for desc, toks, want in terms:
+        if want[0] not in ("String", "CIString", "BuiltIn") or "decoded" in desc:
+            continue
+        out.append((f"#t = {desc} ~ a", T + toks + [("SEQUENCE_OP", "~")] + A, ("Sequence", want, a)))
+        out.append((f"#t = {desc} | (a)", T + toks + [("CHOICE_OP", "|"), ("LPAREN", "(")] + A + [("RPAREN", ")")], ("Choice", want, ("Group", a))))
+        out.append((f"#t = {desc} ~ !a ~ PUSH(b)", T + toks + [("SEQUENCE_OP", "~"), ("NEGATIVE_PREDICATE", "!")] + A + [("SEQUENCE_OP", "~"), ("PUSH", "PUSH"), ("LPAREN", "(")] + B + [("RPAREN", ")")],
+                    ("Sequence", want, ("NegativePredicate", a), ("Push", b))))
+        out.append((f"#t = {desc}* ~ 'p'..'q'", T + toks + [("REPEAT_OP", "*"), ("SEQUENCE_OP", "~"), ("CHAR", "'p'"), ("RANGE_OP", ".."), ("CHAR", "'q'")], ("Sequence", ("Repeat", want), ("Range", "p", "q"))))
     # (c) prefix operators and chains
     P = {"&": ("POSITIVE_PREDICATE", "PositivePredicate"), "!": ("NEGATIVE_PREDICATE", "NegativePredicate")}
     for p1 in P:
